@@ -56,22 +56,22 @@ for line in subprocess.run(['/verif/bin/emucheck','list'],capture_output=True,te
             if r not in seen: seen.append(r)
         ACTUAL[parts[0]]=','.join(sorted(seen))
 EXTRA = {
- "C01": "; cell scans / column lookups do not rely on an order that does not hold mid-request; timestamps from the injectable clock; whole-millisecond test on every accepting path",
+ "C01": "; no row object reused across the entries of a request; cell scans / column lookups do not rely on an order that does not hold mid-request; timestamps from the injectable clock; whole-millisecond test on every accepting path",
  "C02": "; the content file is replaced by a truncating write; upload ids are the atomic increment's own result; every mutator in its matching critical section",
- "C03": "; the scan variant agrees with which range ends are present; no nil bound; no per-range scratch value carried over; a sent chunk buffer is not recycled",
+ "C03": "; the range-merge fold step is computed from its accumulator; the trailing row of SampleRowKeys is decided for every row; the scan variant agrees with which range ends are present; no nil bound; no per-range scratch value carried over; a sent chunk buffer is not recycled",
  "C04": "; conditions evaluated derive from the request on every path (backward flow); no per-source condition carried over from the previous source",
  "C05": "; copyRow gives copies their own cell slices; in-place compactions are truncated before use; isEmpty answers on the evidence of a cell",
  "C06": "; GC never writes back a stale row; copyRow depth; the ReadModifyWriteRow timestamp depends on the newest existing cell",
  "C07": "; no nested object locks; check-then-act on the bucket map under one hold; stored memory-store records are never assigned in place",
- "C08": "; registry check-then-act under one hold; a created table starts from a wiped directory and Clear reopens with nuke; walk callbacks examine their error first",
+ "C08": "; the optional DeleteTableMeta is in the value method set of a storage used as a value; registry check-then-act under one hold; a created table starts from a wiped directory and Clear reopens with nuke; walk callbacks examine their error first",
  "C09": "; Copy does not mix source and destination names; any return on an unreadable sidecar excludes not-exist first; siblings use the same named parameters; scrubbed fields are recomputed; directory entries never reach the per-object listing logic",
  "C10": "; every mutator in its matching critical section; stored records immutable",
  "C11": "; walk callback examines its error first; sibling parameter use; directory entries never reach the per-object listing logic",
  "C12": "; copyRow depth; no row deletion from inside an iteration; isEmpty answers on the evidence of a cell",
  "C13": "; timestamps from the injectable clock; column lookups do not rely on qualifier order; appendOrReplaceCell uniqueness conditions; read and write-back of every row RPC under one hold; the written timestamp depends on the newest existing cell",
  "C14": "; registry check-then-act under one hold; no nil scan bound; rows closed only at shutdown; the ListTables parent prefix includes the /tables/ separator",
- "C15": "; no nested object locks; decode target is not a shallow copy of a store object; stored records immutable",
- "C16": "; GC cut-offs from the injectable clock; every row store stamps the write-activity clock; engine methods have only their own effect and take no locks",
+ "C15": "; no copy loop over a just-made map; no nested object locks; decode target is not a shallow copy of a store object; stored records immutable",
+ "C16": "; the write-back flag of a GC pass is monotone over the columns; GC cut-offs from the injectable clock; every row store stamps the write-activity clock; engine methods have only their own effect and take no locks",
  "C17": "; dispatch shape; engine contracts (reopen passes nuke, Create wipes, single-effect methods, no engine locks, Close only at shutdown)",
  "C18": "; every table.rows access under the lock; no stale GC write-back; store only on success; engines take no locks; rows closed only at shutdown; sent buffers not recycled",
  "C19": "; Run cannot return on the acquired edge without the deferred unlock; decrement and eviction in one hold",
